@@ -159,6 +159,14 @@ def run_verus(path, ex, name, rlimit=None, seed=None, timeout=900, extra=(), mul
         else:
             err['class'] = 'tool'
             nonsem.append(msg)
+        if err['class'] == 'semantic':
+            grown = shape_growth(name, item, ex.log)
+            if grown:
+                # the function has been restructured since the proofs were written: it now contains constructs that need
+                # annotations of their own (loop invariant, closure contract, iterator-adaptor spec, extra exit point).
+                # A failed obligation there means "needs contract", not "property broken" - undecided, never an alarm.
+                err['class'] = 'restructured'
+                err['restructured'] = grown
         res.errors.append(err)
     if js:
         vr = js.get('verification-results', {})
@@ -186,9 +194,41 @@ def run_verus(path, ex, name, rlimit=None, seed=None, timeout=900, extra=(), mul
         res.reason = 'Verus rejected the extracted text (unsupported construct / type error): ' + '; '.join(nonsem[:3])
     elif 'semantic' in classes:
         res.status = 'failed'
+    elif 'restructured' in classes:
+        e0 = [e for e in res.errors if e['class'] == 'restructured'][0]
+        res.status = 'restructured'
+        res.reason = ('`%s` was restructured (new %s relative to the committed baseline) and its proof no longer goes through: '
+                      'needs contract, not a verdict [%s: %s]' % (e0['item'], ', '.join(e0['restructured']), e0['message'], e0['clause'][:100]))
     else:
         res.status, res.reason = 'undecided', 'solver resource limit'
     return res
+
+
+_SHAPES = None
+
+
+def shape_growth(unit, item, log):
+    """constructs (loop / closure / iterator adaptor / early exit) that `item` has now and did not have on the committed baseline"""
+    global _SHAPES
+    if _SHAPES is None:
+        try:
+            _SHAPES = json.load(open(os.path.join(VERIF, 'baseline', 'shapes.json')))
+        except Exception:
+            _SHAPES = {}
+    if not item or log is None:
+        return []
+    now = None
+    for it in log.items:
+        if it.get('kind') == 'fn' and it.get('name') == item and 'shape' in it and not it.get('external'):
+            now = it['shape']
+    if now is None:
+        for it in log.items:
+            if it.get('kind') == 'fn' and it.get('name') == item and 'shape' in it:
+                now = it['shape']
+    base = _SHAPES.get('%s/%s' % (unit, item))
+    if now is None or base is None:
+        return []
+    return sorted('%s x%d->x%d' % (k, base.get(k, 0), v) for k, v in now.items() if k != 'exit' and v > base.get(k, 0))
 
 
 def norm_ws(s):
